@@ -203,7 +203,18 @@ def build_seq(desc, mf=True):
 BUILDERS = {"arc": build_arc, "path": build_path, "seq": build_seq}
 
 
-def corner_cases():
+def corner_cases(max_n=18):
+    """The deterministic corner descriptions whose model stays small enough for the 2^n sweeps of the oracles."""
+    for kind, desc in _corner_descs():
+        try:
+            n = int(BUILDERS[kind](dict(desc)).get_num_variables())
+        except Exception:  # noqa: a corner case the class refuses is still a corner case (the checks report what they see)
+            n = 0
+        if n <= max_n:
+            yield kind, desc
+
+
+def _corner_descs():
     """Deterministic hand-made descriptions outside the random family: no customer at all, a time
     grid with a repeated point, a single customer with a negative-cost loop."""
     base = {"nodes": [("D", 0, 0, INF)], "depot_first": True, "arcs": [("D", "D", 1, -3)], "time_points": [2, 0, 1],
@@ -223,6 +234,33 @@ def corner_cases():
                      time_points=[0, 1, 2, 3], routes=[["D", "c1", "D"], ["D", "c2", "D"], ["D", "c1", "c2", "D"]], V=2, L=4,
                      strict=False)
         yield "path", dict(mixed)
+    # every leg touching the depot is free, the customer-to-customer legs are not: the linear part of the sequence
+    # objective is all zero while its quadratic part is not (an objective added "only if there are costs" must look at both)
+    for strict in (False, True):
+        free = dict(base, nodes=[("D", 0, 0, INF), ("c1", 0, 0, 9), ("c2", 0, 0, 9)],
+                    arcs=[("D", "c1", 1, 0), ("c1", "D", 1, 0), ("D", "c2", 1, 0), ("c2", "D", 1, 0), ("c1", "c2", 1, 4), ("c2", "c1", 1, 1)],
+                    time_points=[0, 1, 2, 3], routes=[["D", "c1", "c2", "D"], ["D", "c2", "c1", "D"]], V=1, L=4, strict=strict)
+        yield "seq", dict(free)
+    # all customers on depot arcs, one vehicle too few, the model queried before the heuristic: make_feasible only adds
+    # dummy vehicles (no arc), everything requested afterwards must reflect them
+    for high in (10, 10 ** 6):
+        star = dict(base, nodes=[("D", 0, 0, INF), ("c1", 1, 0, INF), ("c2", 1, 0, INF)],
+                    arcs=[("D", "c1", 1, 1), ("c1", "D", 1, 1), ("D", "c2", 1, 2), ("c2", "D", 1, 2)],
+                    time_points=[0, 1, 2], routes=[["D", "c1", "D"]], V=1, L=3, strict=False,
+                    make_feasible=high, mf_mode="after_query")
+        for kind in KINDS:
+            yield kind, dict(star)
+    # a customer nobody can reach / nobody can leave, the model queried before the heuristic: make_feasible adds arcs
+    # (hence variables), and every cached piece of data requested afterwards must be rebuilt
+    for high in (10, 1000):
+        for arcs in ([("D", "c1", 1, 1), ("c1", "D", 1, 1), ("c2", "D", 1, 2)],
+                     [("D", "c1", 1, 1), ("c1", "D", 1, 1), ("D", "c2", 1, 2)],
+                     [("D", "c1", 1, 1), ("c1", "c2", 1, 1), ("c2", "D", 1, 2)]):
+            lost = dict(base, nodes=[("D", 0, 0, INF), ("c1", 1, 0, 2), ("c2", 1, 0, 2)], arcs=list(arcs),
+                        time_points=[0, 1, 2], routes=[["D", "c1", "D"]], V=1, L=4, strict=False,
+                        make_feasible=high, mf_mode="after_query")
+            for kind in KINDS:
+                yield kind, dict(lost)
 
 
 # --------------------------------------------------------------------------- exact views
